@@ -61,7 +61,7 @@ def _design(ctx):
     return {"module": mod, "states": res.distinct, "transitions": res.generated, "depth": res.depth}
 
 
-LOCKSTEP = {"C02", "C04", "C05"}       # properties that also get the lock-step clauses of Interp.tla
+LOCKSTEP = {"C02", "C04", "C05", "C41"}       # properties that also get the lock-step clauses of Interp.tla
 
 
 def _lockstep(ctx):
